@@ -26,6 +26,7 @@ def make_cases(tier, seed):
     cases += gen_list.gen_exhaustive(2 if quick else 3)
     cases += gen_list.gen_ttl(seed, 2000 if quick else 20000)
     cases += gen_list.gen_blocking(seed, 2000 if quick else 20000)
+    cases += gen_list.gen_two_poppers(seed, 1500 if quick else 15000)
     cases += gen_list.gen_random(seed, 8000 if quick else 100000)
     return cases
 
@@ -36,7 +37,7 @@ RULE = ("regression programs; systematic boundary sweeps (every index pair for L
         "destination with deadlines; quick tier: seeded sample, thorough: all); bounded-exhaustive: all programs of length <= 2 "
         "(quick) / <= 3 (thorough) over a 24-command alphabet on 2 keys; TTL interplay (EXPIRE on a list, pushes/pops/blocking "
         "pops across the deadline); blocking forms with a second connection acting at chosen virtual instants (BG directive), "
-        "timeout 0 incl. the watchdog path; seeded random programs (1-30 commands, 2-4 keys, duplicate/empty/binary elements, "
+        "timeout 0 incl. the watchdog path; two or three connections blocked at once with tickers out of phase and a pusher (multi-popper replay, Mem/ListsMulti.v); seeded random programs (1-30 commands, 2-4 keys, duplicate/empty/binary elements, "
         "keys holding strings, malformed arity); a keyspace dump with the H1 list self-check follows every step")
 
 
